@@ -366,6 +366,9 @@ func (e *Engine) verifyFunction(fn *ssa.Function, ct *Contract) *FuncReport {
 				Cond: ex.cond, Goal: g, Clause: en.Text, Exit: fp, Pos: e.posString(ex.ret.Pos()), Props: en.Props})
 		}
 	}
+	if ct.HasMod && len(f.exits) > 0 {
+		e.frameObligations(c, fn, ct, f, alloc0)
+	}
 	if len(f.exits) > 0 {
 		c.addObl(&Obl{Name: fn.String() + "/cover/exit", Kind: "cover", Cond: or(exitConds...), Goal: sTrue, ExpectSat: true})
 		c.addObl(&Obl{Name: fn.String() + "/canary", Kind: "canary", Cond: or(exitConds...), Goal: sTrue, ExpectSat: true})
@@ -469,4 +472,51 @@ func sortedKeys(m map[string]int) []string {
 	}
 	sort.Strings(out)
 	return out
+}
+
+// frameObligations: with an explicit `modifies` clause, every other memory array
+// must be unchanged at all pre-existing references at every exit.
+func (e *Engine) frameObligations(c *Ctx, fn *ssa.Function, ct *Contract, f *frame, alloc0 string) {
+	mods := map[string]bool{}
+	for _, m := range ct.Modifies {
+		mods[m] = true
+	}
+	allowed := func(n string) bool {
+		if mods[n] {
+			return true
+		}
+		for m := range mods {
+			if strings.HasSuffix(m, "*") && strings.HasPrefix(n, strings.TrimSuffix(m, "*")) {
+				return true
+			}
+		}
+		return false
+	}
+	entry := f.entry.heap
+	for _, name := range c.knownArrays() {
+		if allowed(name) {
+			continue
+		}
+		srt := c.memSorts[name]
+		a0 := c.heapGet(entry, name, srt)
+		var conds, goals []string
+		for _, ex := range f.exits {
+			a1 := c.heapGet(ex.st.heap, name, srt)
+			if a1 == a0 {
+				continue
+			}
+			conds = append(conds, ex.cond)
+			if strings.HasPrefix(name, "G|") {
+				goals = append(goals, implies(ex.cond, eq(a1, a0)))
+				continue
+			}
+			q := c.qvar()
+			goals = append(goals, implies(ex.cond, fmt.Sprintf("(forall ((%s Int)) (=> (< %s %s) (= (select %s %s) (select %s %s))))", q, q, alloc0, a1, q, a0, q)))
+		}
+		if len(goals) == 0 {
+			continue
+		}
+		c.addObl(&Obl{Name: fmt.Sprintf("%s/frame[%s]", fn.String(), name), Kind: "frame", Cond: or(conds...), Goal: and(goals...),
+			Clause: "modifies " + strings.Join(ct.Modifies, " ") + " (array " + name + " unchanged at pre-existing references)"})
+	}
 }
